@@ -6,6 +6,7 @@ the exact duration (saturating).  Property theorems only.
 import ConfModel.Lemmas.ServerTimeout
 import ConfModel.Lemmas.ServerChecks
 import ConfModel.Generated.C12Facts
+import ConfModel.Lemmas.FeedbackLine
 namespace ConfModel.Props.C12
 open ConfModel.ServerTimeout ConfModel.ServerChecksSpec
 
@@ -555,5 +556,71 @@ theorem chain_bidi_http1_witness :
     (checks 0 (pretendHTTP2 bidiStreamProcedure (render exBidi "S/t" exBidi exBidiV))).feedback = [.version] ∧
     (checks 0 (pretendHTTP2 bidiStreamProcedure
         (render { exBidi with version := .h2 } "S/t" exBidi exBidiV))).feedback = [] := by decide
+
+/-! ## "reports feedback naming the test case": from the printer to the runner
+
+The feedback of the checks is only worth something if the runner can tell which test case it
+is about.  The printer writes `name`, `": "`, the formatted message and a line break
+(`prefixLine`, the name is data and never part of a format string); the runner's reader
+(`readStream`: the model of the stderr goroutine of `runTestCasesForServer`, C11) must record
+exactly that message for exactly that test case - for **every** test case name, whatever
+characters it is made of, as long as the reader's own framing can carry it (no `": "` and no line
+break inside, no white space in front) - and for every message that is a line of its own. -/
+
+open ConfModel.FeedbackLine ConfModel.ServerRunner in
+/-- **feedback_line_attributed.**  A feedback message printed for test case `nm` of the batch is
+recorded by the runner for `nm`, with exactly the message text, and nothing is forwarded as
+noise. -/
+theorem feedback_line_attributed (names : List (List Char)) (nm text : List Char)
+    (hm : nm ∈ names) (hsep : Spec.noSep nm = true) (hn : startsClean nm = true) (hnl : oneLine nm = true)
+    (ht : endsClean text = true) (htl : oneLine text = true) :
+    readStream names (prefixLine nm text) = ([], [(nm, text)]) := by
+  obtain ⟨t, d, rfl, hd⟩ := endsClean_concat text ht
+  have hlast : (nm ++ ':' :: ' ' :: (t ++ [d])).getLast? = some d := by
+    have : nm ++ ':' :: ' ' :: (t ++ [d]) = (nm ++ ':' :: ' ' :: t) ++ [d] := by simp
+    rw [this, List.getLast?_concat]
+  have hdn : (some d == some '\n') = false := by
+    have : d ≠ '\n' := by intro e; subst e; revert hd; decide
+    simpa using this
+  have hone : oneLine (nm ++ ':' :: ' ' :: (t ++ [d])) = true := by
+    simp only [oneLine, List.contains_eq_mem, List.mem_append, List.mem_cons, Bool.not_eq_true',
+      decide_eq_false_iff_not] at hnl htl ⊢
+    intro h
+    rcases h with h | h | h | h
+    · exact hnl h
+    · exact absurd h (by decide)
+    · exact absurd h (by decide)
+    · exact htl (by simpa using h)
+  unfold readStream prefixLine
+  simp only [hlast, hdn, Bool.false_eq_true, if_false]
+  have hs := splitLines_oneLine (nm ++ ':' :: ' ' :: (t ++ [d])) [] hone
+  simp only [List.reverse_nil, List.nil_append] at hs
+  rw [hs]
+  have htrim : trim (nm ++ ':' :: ' ' :: (t ++ [d]) ++ ['\n']) = nm ++ ':' :: ' ' :: (t ++ [d]) := by
+    cases nm with
+    | nil =>
+      have := trim_clean ':' (' ' :: t) d (by decide) hd
+      simpa using this
+    | cons c nm' =>
+      have hc : isSpace c = false := by simpa [startsClean] using hn
+      have := trim_clean c (nm' ++ ':' :: ' ' :: t) d hc hd
+      simpa using this
+  have hr := lineAct_recorded names nm (t ++ [d]) hm (by simpa [Spec.noSep] using hsep) _ htrim
+  simp only [processLines, hr]
+
+open ConfModel.FeedbackLine in
+/-- Non-vacuity: a name full of formatting verbs is attributed like any other; and what it looks
+like when the name is *not* kept out of the format string - `fmt` turns `"110%-of-timeout: expected
+compression %s; instead got %s"` with arguments `gzip`, `identity` into the line below, which the
+runner cannot attribute (it is forwarded as noise and the deviating request goes unreported). -/
+theorem feedback_line_witness :
+    readStream ["S/110%-of-timeout".toList, "S/other".toList]
+      (prefixLine "S/110%-of-timeout".toList "expected compression gzip; instead got identity".toList)
+      = ([], [("S/110%-of-timeout".toList, "expected compression gzip; instead got identity".toList)]) ∧
+    attributedTo ["S/110%-of-timeout".toList, "S/other".toList] "S/110%-of-timeout".toList
+      (prefixLine "S/110%-of-timeout".toList "expected compression gzip; instead got identity".toList) = true ∧
+    attributedTo ["S/110%-of-timeout".toList, "S/other".toList] "S/110%-of-timeout".toList
+      "S/110%!-(string=gzip)of-timeout: expected compression identity; instead got %!s(MISSING)\n".toList = false := by
+  decide
 
 end ConfModel.Props.C12
